@@ -377,3 +377,81 @@ def volume_ssa(net, times, vdt, volume, t0=0.0, fire_cost=1, edge_cost=1, x0=Non
         us.append(lr.u)
         net.fire(x, which[lr.name])
     return dict(us=us, rows=rows, vols=vols, times=list(times[:len(rows)]), visited=visited, divided=divided)
+
+
+def delay_volume_ssa(net, times, vdt, qdt, ncols, volume, t0=0.0, fire_cost=1, edge_cost=1, x0=None):
+    """DelayVolumeSSASimulator: reactions (volume-scaled rates, not clipped at grid times), volume steps every vdt from t0
+    and queue slots every qdt from the queue's own origin 0; a queued delivery due at the same instant as a volume step
+    comes first; rows are taken before either."""
+    x = dict(x0) if x0 is not None else net.x0()
+    P = dict(net.spec.get('params', {}))
+    step = min([b - a for a, b in zip(times, times[1:])] + [vdt, qdt])
+    q = RefQueue(0.0, qdt, ncols)
+    us, rows, vols, visited = [], [], [], []
+    V = float(volume.get('V', volume.get('V0', 1.0)))
+    t, idx, rule_step, nvk, divided = t0, 0, True, 1, False
+    N = len(times)
+    final = times[-1]
+    while idx < N:
+        RR.apply(net.rules, x, P, t, vdt, rule_step, V)
+        a = net.props(x, P, t, V)
+        Lam = sum(a)
+        visited.append((tuple(net.row(x)), idx, tuple(sorted((n - q.next_slot, tuple(sorted(d.items()))) for n, d in q.pending.items()))))
+        NV, NQ = t0 + nvk * vdt, q.next_time()
+        if Lam == 0:
+            proposed = final + vdt
+            rule_step = True
+        else:
+            bounds = sorted({b for b in (NV, NQ) if b > t})
+            if not bounds:
+                lt = yield Menu('wait', [Letter('any', 0.5, 0)], dict(t=t, Lam=Lam))
+            else:
+                lt = yield wait_menu(t, Lam, bounds, step, final, fire_cost)
+            us.append(lt.u)
+            proposed = t + (-math.log(lt.u) / Lam)
+            rule_step = False
+        if proposed < NV and proposed < NQ:
+            t = proposed
+            kind = 0
+        elif NV < NQ:
+            t = NV
+            nvk += 1
+            kind = 1
+            rule_step = True
+        else:
+            t = NQ
+            kind = 2
+            rule_step = False
+        while idx < N and times[idx] <= t:
+            rows.append(net.row(x)); vols.append(V); idx += 1
+        if idx >= N:
+            break        # what is due exactly at the final time stays pending
+        if kind == 0:
+            menu, which = rxn_menu(a, Lam, edge_cost)
+            lr = yield menu
+            us.append(lr.u)
+            j = which[lr.name]
+            dspec = net.spec['reactions'][j].get('delay')
+            delay = 0.0
+            if dspec:
+                dm = delay_menu(dspec, P, t, 0.0, qdt, ncols, q.next_slot)
+                ld = (yield dm) if dm is not None else None
+                delay, used = sample_delay(dspec, P, ld)
+                us.extend(used)
+            net.fire(x, j, immediate=True, delayed=False)
+            if delay > 0.0:
+                q.add(t + delay, j)
+            else:
+                net.fire(x, j, immediate=False, delayed=True)
+        elif kind == 1:
+            if volume['type'] == 'growth':
+                V = V + (math.exp(volume['rate'] * vdt) - 1.0) * V
+                if volume['division_time'] > t - vdt and volume['division_time'] <= t:
+                    divided = True
+                    break
+        else:
+            for j, cnt in q.pop().items():
+                for _ in range(cnt):
+                    net.fire(x, j, immediate=False, delayed=True)
+    return dict(us=us, rows=rows, vols=vols, times=list(times[:len(rows)]), visited=visited, divided=divided,
+                queue=q.drained(net.nr), queue_next_time=q.next_time())
